@@ -159,6 +159,23 @@ def m4b(rep, w):
             'leaves a registered, never-imported module behind and every later import of that path reports a circular dependency' % via[:4], comp.loc())
 
 
+def _is_table(g, operand):
+    """the operand is (a reference to) a std HashMap, or a struct of the crate that wraps one (a table with the same method names)"""
+    c = g.crate
+    pl = op_place(operand)
+    if pl is None:
+        return False
+    t = c.ty(c.peel_refs(pl.get('t', g.local_ty(pl['l']))))
+    if t['k'] != 'adt':
+        return False
+    if t['n'] == 'std::collections::HashMap':
+        return True
+    adt = c.adts.get(t['n'])
+    if adt is None or not t['n'].startswith('yarel::') or adt['kind'] != 'Struct':
+        return False
+    return any(c.ty(fd['t'])['k'] == 'adt' and c.ty(fd['t'])['n'] == 'std::collections::HashMap' for fd in adt['variants'][0]['fields'])
+
+
 def m2(rep, w):
     r = rep.rule('M2', 'global-variable opcodes read and write only the active module\'s attribute table; the active module is the running '
                  'frame\'s closure\'s module', floor=6)
@@ -171,7 +188,8 @@ def m2(rep, w):
             org = origins(g)
             for bi, t in g.calls():
                 name = strip_generics(callee_name(t) or '')
-                if name.startswith('std::collections::HashMap::') and name.rsplit('::', 1)[-1] in ('get', 'insert', 'remove', 'contains_key', 'entry', 'values', 'iter', 'get_mut'):
+                tail_ = name.rsplit('::', 1)[-1]
+                if (tail_ in ('get', 'insert', 'remove', 'contains_key', 'entry', 'values', 'iter', 'get_mut') or tail_.startswith('get_')) and t['args'] and _is_table(g, t['args'][0]):
                     n += 1
                     fl = operand_fields(g, org, t['args'][0])
                     if not ({'active_module', 'attributes'} <= fl):
@@ -305,8 +323,15 @@ def m3(rep, w):
         d = w.fns.get(lp)
         if d is None:
             continue
-        body = {lp} | {x for x in cg.get(lp, ()) if x in w.fns and w.fns[x].crate is d.crate} | {g.path for g in w.fns.values() if g.kind == 'Closure' and g.parent == lp}
-        body |= {g.path for g in w.fns.values() if g.kind == 'Closure' and g.parent in body}
+        # the loader, the functions of its crate it calls and the closures made in them, transitively (a loader may be a thin shim over
+        # a method of a loader object kept in a thread-local)
+        body = {lp}
+        for _ in range(5):
+            more = {x for y in body for x in cg.get(y, ()) if x in w.fns and w.fns[x].crate is d.crate}
+            more |= {g.path for g in w.fns.values() if g.kind == 'Closure' and g.parent in body}
+            if more <= body:
+                break
+            body |= more
         # the errors built for a file that cannot be read: in code that runs after a std::fs / std::io call of the same function, or in a
         # closure made there (map_err)
         kinds = []
@@ -324,7 +349,7 @@ def m3(rep, w):
             for bi, b in enumerate(g.blocks):
                 for s_ in b['s']:
                     if s_.get('r', {}).get('rv') == 'agg' and (s_['r'].get('adt') or '').endswith('error::ErrorKind'):
-                        if made_after_io or any(i_ in dom.get(bi, ()) for i_ in io_calls):
+                        if made_after_io or any(i_ in dom.get(bi, ()) or bi in g.reachable_blocks(i_) for i_ in io_calls):
                             kinds.append(s_['r']['v'])
         r.check(bool(kinds) and set(kinds) == {'ImportError'}, 'loader %s reports its failures as ImportError' % lp.rsplit('::', 1)[-1],
                 'module loader %s builds errors of kind %s: an import that fails there is not the ImportError a handler filtering on the class expects' % (lp, sorted(set(kinds))), d.loc())
